@@ -6,8 +6,8 @@
 
      validator        rules/context.go Context.Reset              -> rules_call
      CBE reader       cbe/decoder_reader.go SetReader              -> reader_call
-     CBE encoder      cbe/encoder.go (PrepareToEncode resets no
-                      encoder field; state = Model/Cbe.enc_state)  -> cbe_enc_call
+     CBE encoder      cbe/encoder.go PrepareToEncode (state =
+                      Model/Cbe.enc_state)                         -> cbe_enc_call
      CTE encoder      cte/encoder_context.go Begin (run by
                       OnBeginDocument)                             -> cte_call
      type caches      iterator/session.go GetIteratorForType,
@@ -140,12 +140,17 @@ Definition reader_call_noreset (max : N) (r : reader) (reads : list (N * bool)) 
 (* 3. The CBE encoder                                                   *)
 (* ------------------------------------------------------------------ *)
 
-(* Encoder.arrayType / trySmallArrayHeader live in Cbe.enc_state.  There is no
-   per-document reset: PrepareToEncode only replaces the writer, and
-   OnBeginDocument / OnEndDocument do not touch the two fields.  An event the
-   encoder panics on ends the document (the caller's recover); the bytes of the
-   events accepted so far have been written. *)
+(* Encoder.arrayType / trySmallArrayHeader live in Cbe.enc_state.  The reset
+   point is PrepareToEncode: it replaces the writer and sets arrayType :=
+   ArrayTypeInvalid, trySmallArrayHeader := false, so nothing of a previous
+   (possibly aborted) document reaches the next one; OnBeginDocument /
+   OnEndDocument do not touch the two fields.  An event the encoder panics on
+   ends the document (the caller's recover); the bytes of the events accepted so
+   far have been written. *)
 Definition enc_obs := (option N * bytes)%type.   (* index of the rejected event, bytes written *)
+
+Definition cbe_enc_prepare (st : Cbe.enc_state) : Cbe.enc_state :=
+  {| Cbe.es_array_type := CbeConsts.cbeAT_Invalid; Cbe.es_try_small := false |}.
 
 Fixpoint cbe_enc_run (st : Cbe.enc_state) (i : N) (es : list event) (out : bytes)
   : Cbe.enc_state * enc_obs :=
@@ -158,7 +163,13 @@ Fixpoint cbe_enc_run (st : Cbe.enc_state) (i : N) (es : list event) (out : bytes
       end
   end.
 
+(* PrepareToEncode, then the events of one document *)
 Definition cbe_enc_call (st : Cbe.enc_state) (es : list event) : Cbe.enc_state * enc_obs :=
+  cbe_enc_run (cbe_enc_prepare st) 0 es [].
+
+(* The same machine without the reset, to show what it is needed for
+   (PrepareToEncode did not touch the two fields before it was repaired). *)
+Definition cbe_enc_call_noreset (st : Cbe.enc_state) (es : list event) : Cbe.enc_state * enc_obs :=
   cbe_enc_run st 0 es [].
 
 (* a pending OnArrayBegin: the next OnArrayChunk / OnEndDocument writes an array header *)
